@@ -313,14 +313,20 @@ B_RE = re.compile(r"^/\\ b = (\d+)\s*$")
 INV_RE = re.compile(r"Error: Invariant (\S+) is violated")
 
 
+MAX_SHARD_BYTES = 120 * 1024 * 1024      # a shard is parsed into one TLA+ value by ndJsonDeserialize: keep it small
+MAX_PARALLEL_SHARDS = 8
+
+
 def _split_trace(trace_path, d, shards):
+    """contiguous shards: at least `shards` of them, more if a shard would exceed MAX_SHARD_BYTES"""
     n = count_lines(trace_path)
-    shards = max(1, min(shards, n))
+    size = os.path.getsize(trace_path)
+    shards = max(1, min(max(shards, (size + MAX_SHARD_BYTES - 1) // MAX_SHARD_BYTES), n))
     per = (n + shards - 1) // shards
     parts = []
     with open(trace_path) as f:
         for k in range(shards):
-            p = os.path.join(d, "trace_%02d.ndjson" % k)
+            p = os.path.join(d, "trace_%03d.ndjson" % k)
             cnt = 0
             with open(p, "w") as fo:
                 for _ in range(per):
@@ -331,6 +337,8 @@ def _split_trace(trace_path, d, shards):
                     cnt += 1
             if cnt:
                 parts.append((p, k * per, cnt))
+            else:
+                os.unlink(p)
     return parts
 
 
@@ -338,7 +346,8 @@ def tlc_validate(d, trace_path, invariants, timeout=900, skip=(), name="Trace", 
                  shards=None, heavy=False):
     """Validate recorded behaviours against spec/Trace.tla with the given invariants.
     The trace is split into shards, each validated by its own single-worker TLC (initial-state generation is
-    single-threaded and contended in TLC, so many small processes beat one process with many workers).
+    single-threaded and contended in TLC, so many small processes beat one process with many workers); at most
+    MAX_PARALLEL_SHARDS run at a time.
     Returns dict(ok, inv, b, states, transitions, secs, deadlock, outp); b is the 1-based global index."""
     n = count_lines(trace_path)
     if shards is None:
@@ -348,9 +357,12 @@ def tlc_validate(d, trace_path, invariants, timeout=900, skip=(), name="Trace", 
     for inv in invariants:
         cfgtext += "INVARIANT %s\n" % inv
     t0 = time.time()
-    procs = []
-    for k, (p, off, cnt) in enumerate(parts):
-        mod = "TV%02d" % k
+    deadline = t0 + timeout
+    res = {"ok": True, "inv": None, "b": None, "states": 0, "transitions": 0, "secs": 0, "deadlock": False,
+           "outp": None, "error": None, "known": {}}
+
+    def launch(k, p, off, cnt):
+        mod = "TV%03d" % k
         local_skip = [s_ - off for s_ in skip if off < s_ <= off + cnt]
         with open(os.path.join(d, mod + ".tla"), "w") as f:
             f.write("---- MODULE %s ----\nEXTENDS %s\nExcludedBeh == {%s}\nTVInit == TraceInit /\\ b \\notin ExcludedBeh\n====\n"
@@ -371,23 +383,11 @@ def tlc_validate(d, trace_path, invariants, timeout=900, skip=(), name="Trace", 
         e["TRACE"] = p
         outp = os.path.join(d, mod + ".out")
         fo = open(outp, "w")
-        procs.append((subprocess.Popen(cmd, cwd=d, env=e, stdout=fo, stderr=subprocess.STDOUT), fo, outp, off, md))
-    res = {"ok": True, "inv": None, "b": None, "states": 0, "transitions": 0, "secs": 0, "deadlock": False,
-           "outp": None, "error": None}
-    deadline = t0 + timeout
-    timed_out = False
-    for (pr, fo, outp, off, md) in procs:
-        try:
-            pr.wait(timeout=max(1, deadline - time.time()))
-        except subprocess.TimeoutExpired:
-            pr.kill()
-            timed_out = True
+        return (subprocess.Popen(cmd, cwd=d, env=e, stdout=fo, stderr=subprocess.STDOUT), fo, outp, off, md, p)
+
+    def collect(pr, fo, outp, off, md, p):
         fo.close()
         shutil.rmtree(md, ignore_errors=True)
-    if timed_out:
-        raise ToolError("TLC trace validation timeout after %ss" % timeout)
-    res["known"] = {}
-    for (pr, fo, outp, off, md) in procs:
         gen, dist = tlc_stats(outp)
         res["states"] += dist
         res["transitions"] += gen
@@ -399,9 +399,15 @@ def tlc_validate(d, trace_path, invariants, timeout=900, skip=(), name="Trace", 
         for mk in KF_RE.finditer(text):
             res["known"].setdefault((mk.group(1), mk.group(2)), []).append(mk.group(3))
         if "Model checking completed. No error has been found." in text:
-            continue
+            if len(parts) > MAX_PARALLEL_SHARDS:
+                try:
+                    os.unlink(outp)
+                    os.unlink(p)
+                except OSError:
+                    pass
+            return
         if not res["ok"]:
-            continue                      # report the first failing shard only
+            return                        # report the first failing shard only
         res["ok"] = False
         res["outp"] = outp
         m = INV_RE.search(text)
@@ -418,6 +424,32 @@ def tlc_validate(d, trace_path, invariants, timeout=900, skip=(), name="Trace", 
             res["error"] = "trace not accepted (deadlock): an event had no enabled action"
         else:
             res["error"] = "TLC failed rc=%s: %s" % (pr.returncode, text[-3000:])
+
+    pending = list(enumerate(parts))
+    running = []
+    while pending or running:
+        while pending and len(running) < MAX_PARALLEL_SHARDS and res["ok"]:
+            k, (p, off, cnt) = pending.pop(0)
+            running.append(launch(k, p, off, cnt))
+        if not res["ok"]:
+            pending = []
+        still = []
+        for item in running:
+            pr = item[0]
+            if pr.poll() is None:
+                if time.time() > deadline:
+                    for it in running:
+                        try:
+                            it[0].kill()
+                        except Exception:
+                            pass
+                    raise ToolError("TLC trace validation timeout after %ss" % timeout)
+                still.append(item)
+            else:
+                collect(*item)
+        running = still
+        if running:
+            time.sleep(0.2)
     res["secs"] = time.time() - t0
     return res
 
